@@ -16,6 +16,10 @@ def get_seq(req, enc="utf-8"):
     unit = bytes.fromhex(g["unit"]) or b"A"
     n = g["len"]
     buf = bytearray((unit * (n // len(unit) + 1))[:n])
+    for f, ln in g.get("gaps", []):
+        if n > 0:
+            p0 = min((f * n) >> 32, n - 1)
+            buf[p0:min(p0 + ln, n)] = b"N" * (min(p0 + ln, n) - p0)
     for f, b in g["edits"]:
         if n > 0:
             buf[min((f * n) >> 32, n - 1)] = b
